@@ -1063,7 +1063,81 @@ where
         // GraphAsDataset offers remove_matching / retain_matching only when its error type converts
         // from the graph's (not expressible generically): not driven on the graph side
         Op::ViewRemoveMatching(..) | Op::ViewRetainMatching(..) => {}
-        Op::ViewInsertAll(..) | Op::ViewRemoveAll(..) => {}
+        Op::ViewInsertAll(gname, ts, fail_at) | Op::ViewRemoveAll(gname, ts, fail_at) => {
+            // bulk mutation through as_dataset_mut(): every other quad names the graph `gname`
+            // (refused on insertion, ignored on removal when it is not the default graph)
+            let inserting = matches!(op, Op::ViewInsertAll(..));
+            let quads: Vec<MQuad> = ts
+                .iter()
+                .enumerate()
+                .map(|(i, t)| (t.clone(), if i % 2 == 1 { gname.clone() } else { None }))
+                .collect();
+            let mut effective = 0usize;
+            let mut want: Option<&'static str> = None;
+            for (i, q) in quads.iter().enumerate() {
+                if *fail_at == Some(i) {
+                    want = Some("source");
+                    break;
+                }
+                if inserting {
+                    if q.1.is_some() {
+                        want = Some("sink"); // OnlyDefaultGraph
+                        break;
+                    }
+                    let before = m.clone();
+                    match m.insert(q) {
+                        Ok(true) => effective += 1,
+                        Ok(false) => {}
+                        Err(()) => {
+                            let idx = m.index.clone();
+                            *m = before;
+                            m.index = idx;
+                            want = Some("sink");
+                            break;
+                        }
+                    }
+                } else if q.1.is_none() && m.remove(q) {
+                    effective += 1;
+                }
+            }
+            if want.is_none() && *fail_at == Some(quads.len()) {
+                want = Some("source");
+            }
+            let src = faulty(&quads, *fail_at);
+            let mut view = g.as_dataset_mut();
+            let res = if inserting { view.insert_all(src) } else { view.remove_all(src) };
+            match (&res, want) {
+                (Ok(c), None) => ensure!(
+                    *c == effective || !m.set,
+                    o("view_bulk_count"),
+                    "{name}: as_dataset_mut().{} over {} quads (odd ones in graph {gname:?}) returned {c}, per-quad semantics give {effective}",
+                    op.name(),
+                    quads.len()
+                ),
+                (Err(StreamError::SourceError(_)), Some("source")) => {
+                    ctx.fault("source_error_in_bulk_op");
+                    ctx.fault_in_op = true;
+                }
+                (Err(StreamError::SinkError(_)), Some("sink")) => {
+                    ctx.probe("graph_as_dataset_bulk_insert_refused_named_graph");
+                }
+                _ => {
+                    return Err(Violation::new(
+                        o("view_bulk_outcome"),
+                        format!(
+                            "{name}: as_dataset_mut().{} over {} quads (odd ones in graph {gname:?}) returned {}, per-quad semantics expect {want:?}",
+                            op.name(),
+                            quads.len(),
+                            match &res {
+                                Ok(c) => format!("Ok({c})"),
+                                Err(StreamError::SourceError(_)) => "SourceError".to_string(),
+                                Err(StreamError::SinkError(e)) => format!("SinkError({e})"),
+                            }
+                        ),
+                    ));
+                }
+            }
+        }
         Op::Terms | Op::UnionMatching(_) => {}
     }
     let got = {
